@@ -1,7 +1,1398 @@
-//! C15 engine (not yet built).
-use crate::common::{CaseWriter, Opts};
+//! C15 — command line, Rust API, C API and dependency lister agree.
+//!
+//! Sub-engines (selected by the engine name):
+//! * `c15`      option plumbing: the REAL clap structs of `jrsonnet-cli` (`StdOpts`, `TlaOpts`,
+//!              `MiscOpts`, `ManifestOpts`) parse generated command lines in-process; the resulting
+//!              ext-var table, TLA map, resolver search order (probed through `resolve_from`),
+//!              manifest format (identified by behaviour against directly constructed formats) and
+//!              stack limit (probed through `check_depth`) are written next to `cli.plumb`.
+//! * `c15run`   the `jrsonnet` executable vs the library API driven directly (no `jrsonnet-cli`)
+//!              for generated programs x option combinations; the executable's stdout / exit /
+//!              stderr / written files are written next to `cli.render`, whose input is the
+//!              library's outcome.
+//! * `c15capi`  `libjsonnet.so` driven by `c15_capi.c` (compiled with gcc against
+//!              bindings/c/libjsonnet.h) vs the library API; the raw bytes a C consumer reads are
+//!              written next to `capi.frame`.
+//! * `c15deps`  `jrsonnet-deps` on generated import graphs vs `deps.run` (DFS model + closure
+//!              spec); the files an in-process evaluation loads are recorded and must be listed.
+use std::{
+	cell::RefCell,
+	collections::{BTreeMap, HashMap},
+	fs,
+	path::{Path, PathBuf},
+	process::Command,
+};
+
+use clap::Parser;
+use jrsonnet_cli::{ManifestOpts, MiscOpts, StdOpts, TlaOpts};
+use jrsonnet_evaluator::{
+	apply_tla,
+	error::{Error, ErrorKind},
+	function::builtin::{NativeCallback, NativeCallbackHandler},
+	manifest::{JsonFormat, ManifestFormat, StringFormat, ToStringFormat, YamlStreamFormat},
+	rustc_hash::FxHashMap,
+	stack::{check_depth, limit_stack_depth},
+	tla::TlaArg,
+	trace::PathResolver,
+	val::ArrValue,
+	AsPathLike, FileImportResolver, IStr, ImportResolver, ObjValue, Result as JrResult, State, Thunk, Val,
+};
+use jrsonnet_gcmodule::{Acyclic, Trace};
+use jrsonnet_ir::{SourceDirectory, SourcePath};
+use jrsonnet_stdlib::{ContextInitializer, IniFormat, TomlFormat, XmlJsonmlFormat, YamlFormat};
+use serde_json::{json, Value};
+
+use crate::common::{guarded, CaseWriter, Opts, Rng};
+
+const FLAVOURS: [&str; 4] = ["str", "str-file", "code", "code-file"];
+
+#[derive(Clone, Debug)]
+struct VarOpt {
+	fl: &'static str,
+	name: String,
+	payload: String,
+	/// given as `--ext-str NAME` (value from the environment variable NAME)
+	from_env: bool,
+}
+impl VarOpt {
+	fn json(&self) -> Value {
+		json!({"f": self.fl, "n": self.name, "p": self.payload})
+	}
+	fn args(&self, prefix: &str) -> Vec<String> {
+		vec![
+			format!("--{prefix}-{}", self.fl),
+			if self.from_env { self.name.clone() } else { format!("{}={}", self.name, self.payload) },
+		]
+	}
+}
+
+#[derive(Clone, Debug, Default)]
+struct Fmt {
+	f: Option<&'static str>,
+	s: bool,
+	y: bool,
+	pad: Option<usize>,
+}
+impl Fmt {
+	fn json(&self) -> Value {
+		json!({"f": self.f, "S": self.s, "y": self.y, "pad": self.pad})
+	}
+	fn args(&self) -> Vec<String> {
+		let mut a = vec![];
+		if let Some(f) = self.f {
+			a.push("-f".to_owned());
+			a.push(f.to_owned());
+		}
+		if self.s {
+			a.push("-S".to_owned());
+		}
+		if self.y {
+			a.push("-y".to_owned());
+		}
+		if let Some(p) = self.pad {
+			a.push("--line-padding".to_owned());
+			a.push(p.to_string());
+		}
+		a
+	}
+	fn accepted(&self) -> bool {
+		!(self.s && self.f.is_some()) && !(self.y && self.s)
+	}
+}
+
+fn gen_fmt(rng: &mut Rng) -> Fmt {
+	const NAMES: [&str; 6] = ["string", "json", "yaml", "toml", "xml-jsonml", "ini"];
+	Fmt {
+		f: if rng.chance(1, 2) { Some(*rng.pick(&NAMES)) } else { None },
+		s: rng.chance(1, 5),
+		y: rng.chance(1, 4),
+		pad: if rng.chance(1, 3) { Some(*rng.pick(&[0usize, 1, 2, 3, 4, 7])) } else { None },
+	}
+}
+
+/// the format a descriptor names, constructed directly (reference side; no jrsonnet-cli)
+fn format_of(desc: &str) -> Box<dyn ManifestFormat> {
+	if let Some(inner) = desc.strip_prefix("stream(").and_then(|d| d.strip_suffix(')')) {
+		return Box::new(YamlStreamFormat::cli(format_of(inner)));
+	}
+	let (name, pad) = match desc.split_once(':') {
+		Some((n, p)) => (n, p.parse::<usize>().expect("pad")),
+		None => (desc, 0),
+	};
+	match name {
+		"string" => Box::new(StringFormat),
+		"tostring" => Box::new(ToStringFormat),
+		"json" => Box::new(JsonFormat::cli(pad)),
+		"yaml" => Box::new(YamlFormat::cli(pad)),
+		"toml" => Box::new(TomlFormat::cli(pad)),
+		"xml" => Box::new(XmlJsonmlFormat::cli()),
+		"ini" => Box::new(IniFormat::cli()),
+		_ => panic!("descriptor {desc}"),
+	}
+}
+
+/// reference reading of the output-mode flags (what each flag is documented to select)
+fn ref_format_desc(f: &Fmt) -> String {
+	let base = if f.s {
+		"string".to_owned()
+	} else {
+		match f.f.unwrap_or(if f.y { "yaml" } else { "json" }) {
+			"string" => "tostring".to_owned(),
+			"json" => format!("json:{}", f.pad.unwrap_or(3)),
+			"yaml" => format!("yaml:{}", f.pad.unwrap_or(2)),
+			"toml" => format!("toml:{}", f.pad.unwrap_or(2)),
+			"xml-jsonml" => "xml".to_owned(),
+			"ini" => "ini".to_owned(),
+			o => panic!("format {o}"),
+		}
+	};
+	if f.y {
+		format!("stream({base})")
+	} else {
+		base
+	}
+}
+
+fn candidates() -> Vec<String> {
+	let mut base = vec!["string".to_owned(), "tostring".to_owned(), "xml".to_owned(), "ini".to_owned()];
+	for k in ["json", "yaml", "toml"] {
+		for p in 0..=8 {
+			base.push(format!("{k}:{p}"));
+		}
+	}
+	let mut all = base.clone();
+	all.extend(base.iter().map(|b| format!("stream({b})")));
+	all
+}
+
+const PROBES: [&str; 10] = [
+	r#"[{t: {u: [{v: [1, 2]}, {v: {w: [[1], [2]]}}]}, z: [[1, 2], [3]]}]"#,
+	r#"["s1", "s2"]"#,
+	r#"[["a", {x: "1"}, "t"], ["b"]]"#,
+	r#"{a: [1, {b: "x", c: [2, [3]]}], d: {e: null, f: {g: true}}}"#,
+	r#""str""#,
+	r#"[{a: {b: [1, {c: 2}]}}, [2, [3]], "s"]"#,
+	r#"{main: {a: "1"}, sections: {s: {k: "v"}}}"#,
+	r#"["a", {x: "1"}, "t", ["b", "u"]]"#,
+	r#"{t: {u: [{v: [1, 2]}, {v: {w: [[1], [2]]}}]}, z: [[1, 2], [3]]}"#,
+	r#"[[{a: [{b: 1}]}]]"#,
+];
+
+fn signature(s: &State, f: &dyn ManifestFormat) -> Vec<String> {
+	let mut out = vec![format!("nl={}", f.file_trailing_newline())];
+	for p in PROBES {
+		let r = guarded(|| -> JrResult<String> {
+			let v = s.evaluate_snippet("<probe>".to_owned(), p.to_owned())?;
+			f.manifest(v)
+		});
+		out.push(match r {
+			Ok(Ok(t)) => format!("ok:{t}"),
+			Ok(Err(_)) => "err".to_owned(),
+			Err(_) => "panic".to_owned(),
+		});
+	}
+	out
+}
+
+fn plain_state() -> State {
+	let mut s = State::builder();
+	s.context_initializer(ContextInitializer::new(PathResolver::new_cwd_fallback()));
+	s.build()
+}
+
+fn argv(args: &[String]) -> Vec<String> {
+	let mut v = vec!["prog".to_owned()];
+	v.extend(args.iter().cloned());
+	v
+}
+
+fn show_arg(a: Option<&TlaArg>, name: &str) -> Value {
+	match a {
+		None => json!([name, "unset", ""]),
+		Some(TlaArg::String(s)) => json!([name, "String", s.to_string()]),
+		Some(TlaArg::ImportStr(p)) => json!([name, "ImportStr", p]),
+		Some(TlaArg::InlineCode(p)) => json!([name, "InlineCode", p]),
+		Some(TlaArg::Import(p)) => json!([name, "Import", p]),
+		Some(_) => json!([name, "other", ""]),
+	}
+}
+
+fn gen_name(rng: &mut Rng) -> String {
+	(*rng.pick(&["a", "b", "c", "VAR_X", "n", "p1", "p2", "long_name_1"])).to_owned()
+}
+fn gen_payload(rng: &mut Rng) -> String {
+	(*rng.pick(&[
+		"", "v", "1", "a=b", "=", "{x: 1}", "/tmp/f.txt", "rel/p.jsonnet", "é ü", "x y", "name", "a", "\"q\"", "1 + 2",
+	]))
+	.to_owned()
+}
+
+fn gen_vars(rng: &mut Rng, max: usize, allow_env: bool) -> Vec<VarOpt> {
+	let n = rng.below(max + 1);
+	(0..n)
+		.map(|_| {
+			let fl = *rng.pick(&FLAVOURS);
+			let from_env = allow_env && (fl == "str" || fl == "code") && rng.chance(1, 8);
+			let name = gen_name(rng);
+			// one environment variable per name: its value cannot differ between two options
+			let payload = if from_env { format!("from env {name}=1") } else { gen_payload(rng) };
+			VarOpt { fl, name, payload, from_env }
+		})
+		.collect()
+}
+
+fn set_envs(vars: &[VarOpt]) {
+	for v in vars {
+		if v.from_env {
+			std::env::set_var(&v.name, &v.payload);
+		}
+	}
+}
+fn clear_envs(vars: &[VarOpt]) {
+	for v in vars {
+		if v.from_env {
+			std::env::remove_var(&v.name);
+		}
+	}
+}
+
+/// order in which a resolver searches the probe directories
+fn probe_order(r: &dyn ImportResolver, root: &Path, ndirs: usize) -> Vec<String> {
+	let from = SourcePath::new(SourceDirectory::new(root.join("empty")));
+	let mut order = vec![];
+	let mut removed = vec![];
+	for _ in 0..=ndirs {
+		match r.resolve_from(&from, &"probe") {
+			Ok(p) => {
+				let path = PathBuf::from(format!("{p}"));
+				let dir = path.parent().and_then(|d| d.file_name()).map(|d| d.to_string_lossy().to_string());
+				order.push(dir.unwrap_or_default());
+				fs::remove_file(&path).expect("rm probe");
+				removed.push(path);
+			}
+			Err(_) => break,
+		}
+	}
+	for p in removed {
+		fs::write(p, "x").expect("restore probe");
+	}
+	order
+}
+
+fn stack_limit_now() -> usize {
+	let mut guards = Vec::new();
+	while let Ok(g) = check_depth() {
+		guards.push(g);
+		if guards.len() > 2_000_000 {
+			break;
+		}
+	}
+	guards.len()
+}
+
+fn run_plumb(opts: &Opts) {
+	let mut w = CaseWriter::new(&opts.out);
+	let mut rng = Rng::new(opts.seed ^ 0x15);
+	let root = opts.out.join("fs");
+	let _ = fs::remove_dir_all(&root);
+	const NDIRS: usize = 5;
+	fs::create_dir_all(root.join("empty")).expect("mkdir");
+	for i in 0..NDIRS {
+		fs::create_dir_all(root.join(format!("d{i}"))).expect("mkdir");
+		fs::write(root.join(format!("d{i}/probe")), "x").expect("probe");
+	}
+	let st = plain_state();
+	// candidate formats, by behaviour
+	let cands = candidates();
+	let mut by_sig: HashMap<Vec<String>, String> = HashMap::new();
+	for c in &cands {
+		let sig = signature(&st, &*format_of(c));
+		if let Some(prev) = by_sig.insert(sig, c.clone()) {
+			panic!("format probes cannot tell {prev} from {c}");
+		}
+	}
+	let mut hist = BTreeMap::<String, usize>::new();
+	let n = if opts.thorough() { 20000 } else { 2500 };
+	for i in 0..n {
+		let ext = gen_vars(&mut rng, if i % 7 == 0 { 8 } else { 4 }, true);
+		let tla = gen_vars(&mut rng, if i % 5 == 0 { 8 } else { 3 }, true);
+		let njp = rng.below(4);
+		let jpath: Vec<usize> = (0..njp).map(|_| rng.below(NDIRS)).collect();
+		let env: Option<Vec<usize>> = if rng.chance(1, 3) { Some((0..rng.below(3)).map(|_| rng.below(NDIRS)).collect()) } else { None };
+		let fmt = gen_fmt(&mut rng);
+		let stack: Option<usize> = if rng.chance(1, 2) { Some(*rng.pick(&[0usize, 1, 2, 5, 199, 200, 201, 512, 1000, 65536])) } else { None };
+		let mut names: Vec<String> = ext.iter().chain(tla.iter()).map(|v| v.name.clone()).collect();
+		names.push("absent".to_owned());
+		names.sort();
+		names.dedup();
+
+		// ---- the real option structs ----
+		set_envs(&ext);
+		let ext_args: Vec<String> = ext.iter().flat_map(|v| v.args("ext")).collect();
+		let ext_ans = match StdOpts::try_parse_from(argv(&ext_args)) {
+			Ok(o) => match o.context_initializer() {
+				Ok(Some(ctx)) => {
+					let s = ctx.settings();
+					Value::Array(names.iter().map(|n| show_arg(s.ext_vars.get(&IStr::from(n.as_str())), n)).collect())
+				}
+				_ => json!("no-initializer"),
+			},
+			Err(_) => json!("reject"),
+		};
+		clear_envs(&ext);
+		set_envs(&tla);
+		let tla_args: Vec<String> = tla.iter().flat_map(|v| v.args("tla")).collect();
+		let tla_ans = match TlaOpts::try_parse_from(argv(&tla_args)) {
+			Ok(o) => match o.tla_opts() {
+				Ok(m) => Value::Array(names.iter().map(|n| show_arg(m.get(&IStr::from(n.as_str())), n)).collect()),
+				Err(_) => json!("error"),
+			},
+			Err(_) => json!("reject"),
+		};
+		clear_envs(&tla);
+
+		let dirname = |i: &usize| format!("d{i}");
+		let mut misc_args = vec![];
+		for j in &jpath {
+			misc_args.push("-J".to_owned());
+			misc_args.push(root.join(dirname(j)).to_string_lossy().to_string());
+		}
+		if let Some(s) = stack {
+			misc_args.push(if rng.chance(1, 2) { "-s".to_owned() } else { "--max-stack".to_owned() });
+			misc_args.push(s.to_string());
+		}
+		match &env {
+			Some(e) => std::env::set_var(
+				"JSONNET_PATH",
+				std::env::join_paths(e.iter().map(|i| root.join(dirname(i)))).expect("join"),
+			),
+			None => std::env::remove_var("JSONNET_PATH"),
+		}
+		let (paths_ans, stack_ans) = match MiscOpts::try_parse_from(argv(&misc_args)) {
+			Ok(m) => {
+				let r = m.import_resolver();
+				let order = probe_order(&r, &root, NDIRS);
+				let before = stack_limit_now();
+				let lim = {
+					let _g = m.stack_size_override();
+					stack_limit_now()
+				};
+				assert_eq!(before, stack_limit_now(), "stack override guard restores the limit");
+				(json!(order), json!(lim))
+			}
+			Err(_) => (json!("reject"), json!("reject")),
+		};
+		std::env::remove_var("JSONNET_PATH");
+		// C API flavour of the same -J list: FileImportResolver::add_jpath once per path
+		let capi_paths = {
+			let mut r = FileImportResolver::default();
+			for j in &jpath {
+				r.add_jpath(root.join(dirname(j)));
+			}
+			probe_order(&r, &root, NDIRS)
+		};
+		let fmt_ans = match ManifestOpts::try_parse_from(argv(&fmt.args())) {
+			Ok(m) => {
+				let f = m.manifest_format();
+				match by_sig.get(&signature(&st, &*f)) {
+					Some(d) => json!(d),
+					None => json!("unknown-format"),
+				}
+			}
+			Err(_) => json!("reject"),
+		};
+		*hist.entry(format!("ext{}", ext.len().min(5))).or_default() += 1;
+		*hist.entry(format!("tla{}", tla.len().min(5))).or_default() += 1;
+		*hist.entry(format!("jpath{njp}")).or_default() += 1;
+		*hist.entry(format!("fmt.{}", if fmt.accepted() { ref_format_desc(&fmt) } else { "reject".into() })).or_default() += 1;
+		if ext.iter().chain(tla.iter()).any(|v| v.from_env) {
+			*hist.entry("from-env".into()).or_default() += 1;
+		}
+		let size = ext.len() + tla.len() + jpath.len() + 1;
+		w.case(
+			json!({"op":"cli.plumb",
+				"ext": ext.iter().map(VarOpt::json).collect::<Vec<_>>(),
+				"tla": tla.iter().map(VarOpt::json).collect::<Vec<_>>(),
+				"names": names,
+				"jpath": jpath.iter().map(dirname).collect::<Vec<_>>(),
+				"env": env.clone().unwrap_or_default().iter().map(dirname).collect::<Vec<_>>(),
+				"fmt": fmt.json(), "stack": stack, "size": size,
+				"_args": [ext_args, tla_args, fmt.args()]}),
+			json!({"ext": ext_ans, "tla": tla_ans, "paths": paths_ans, "capi_paths": capi_paths,
+				"fmt": fmt_ans, "stack": stack_ans}),
+		);
+	}
+	w.finish(
+		json!({"engine":"c15","cases":n,"hist":hist,
+			"rule":"random option lists (0-8 ext, 0-8 tla, all four flavours, repeated names, value from environment, `=` inside values), 0-3 -J out of 5 dirs with repeats, JSONNET_PATH unset/0-2 entries, every -f/-S/-y/--line-padding combination incl. conflicting ones, boundary --max-stack values; parsed by the real clap structs"}),
+		&opts.out,
+	);
+}
+
+// ------------------------------------------------------------------------------------------------
+// programs + configurations shared by the executable and the C API runs
+
+#[derive(Clone, Debug)]
+struct Scenario {
+	ext: Vec<VarOpt>,
+	tla: Vec<VarOpt>,
+	jpath: Vec<String>,
+	env: Option<Vec<String>>,
+	stack: Option<usize>,
+	code: String,
+	as_file: bool,
+	natives: bool,
+}
+
+fn write_tree(dir: &Path) {
+	let _ = fs::remove_dir_all(dir);
+	for (p, c) in [
+		("libA/shared.libsonnet", "{ from: 'libA' }"),
+		("libB/shared.libsonnet", "{ from: 'libB' }"),
+		("libC/shared.libsonnet", "{ from: 'libC', nested: import 'onlyA.libsonnet' }"),
+		("libA/onlyA.libsonnet", "{ only: 'A', data: importstr 'data.txt' }"),
+		("libA/data.txt", "data from libA\n"),
+		("data.txt", "data next to main\n"),
+		("str.txt", "text \"with\" quotes\nand é\n"),
+		("code.jsonnet", "{ k: 1 + 2, s: importstr 'data.txt' }"),
+		("fn.jsonnet", "function(x=1) { x: x }"),
+		("inc/nested.libsonnet", "{ up: importstr '../data.txt', lib: import 'shared.libsonnet' }"),
+		("bad.jsonnet", "{ a: "),
+		("out/.keep", ""),
+	] {
+		let f = dir.join(p);
+		fs::create_dir_all(f.parent().expect("parent")).expect("mkdir");
+		fs::write(f, c).expect("write");
+	}
+}
+
+/// mostly a working payload, sometimes a failing one
+fn pick_w(rng: &mut Rng, good: &[&'static str], bad: &[&'static str]) -> String {
+	if rng.chance(1, 12) {
+		(*rng.pick(bad)).to_owned()
+	} else {
+		(*rng.pick(good)).to_owned()
+	}
+}
+
+fn gen_scenario(rng: &mut Rng, capi: bool) -> Scenario {
+	let names = ["a", "b", "VAR_X"];
+	let mut ext = vec![];
+	for n in names {
+		if rng.chance(1, 2) {
+			let fl = if capi { *rng.pick(&["str", "code"]) } else { *rng.pick(&FLAVOURS) };
+			let payload = match fl {
+				"str" => (*rng.pick(&["v", "", "é=ü", "multi\nline"])).to_owned(),
+				"code" => pick_w(rng, &["1 + 2", "{ x: [1, 2] }", "import 'libA/shared.libsonnet'", "importstr 'data.txt'", "'s'"], &["error 'ext boom'", "{ a: ", "import 'shared.libsonnet'"]),
+				"str-file" => pick_w(rng, &["str.txt", "data.txt", "libA/data.txt", "./inc/../str.txt"], &["missing.txt"]),
+				_ => pick_w(rng, &["code.jsonnet", "fn.jsonnet", "libA/shared.libsonnet", "./code.jsonnet"], &["missing.jsonnet", "bad.jsonnet", "inc/nested.libsonnet"]),
+			};
+			let from_env = !capi && (fl == "str" || fl == "code") && n == "VAR_X" && !payload.is_empty() && rng.chance(1, 3);
+			ext.push(VarOpt { fl, name: n.to_owned(), payload, from_env });
+		}
+	}
+	if rng.chance(1, 6) && !ext.is_empty() {
+		// the same name under a second flavour
+		let mut o = ext[rng.below(ext.len())].clone();
+		o.fl = if capi { "str" } else { *rng.pick(&FLAVOURS) };
+		o.payload = if o.fl == "str" || o.fl == "code" { "'dup'".to_owned() } else { "str.txt".to_owned() };
+		o.from_env = false;
+		ext.push(o);
+	}
+	// program
+	let mut fields: Vec<String> = vec![];
+	for n in names {
+		if ext.iter().any(|e| e.name == n) || rng.chance(1, 40) {
+			fields.push(format!("e_{n}: std.extVar('{n}')"));
+		}
+	}
+	let njp = rng.below(4);
+	let mut jpath: Vec<String> = (0..njp).map(|_| (*rng.pick(&["libA", "libB", "libC", "libA", "libB", "libC", "nowhere"])).to_owned()).collect();
+	let env: Option<Vec<String>> = if !capi && rng.chance(1, 4) {
+		Some((0..rng.below(3)).map(|_| (*rng.pick(&["libA", "libB", "libC"])).to_owned()).collect())
+	} else {
+		None
+	};
+	if rng.chance(1, 4) {
+		jpath = jpath.into_iter().map(|p| format!("./{p}/")).collect();
+	}
+	let has_lib = jpath.iter().any(|p| p.contains("lib")) || env.as_ref().is_some_and(|e| !e.is_empty());
+	if has_lib || rng.chance(1, 16) {
+		fields.push("imp: import 'shared.libsonnet'".to_owned());
+	}
+	if (has_lib && rng.chance(1, 2)) || rng.chance(1, 20) {
+		fields.push("nested: import 'inc/nested.libsonnet'".to_owned());
+	}
+	if rng.chance(1, 4) {
+		fields.push("str: importstr 'data.txt'".to_owned());
+	}
+	if rng.chance(1, 6) {
+		fields.push("bin: importbin 'data.txt'".to_owned());
+	}
+	let mut stack = None;
+	if rng.chance(1, 4) {
+		let depth = *rng.pick(&[3usize, 10, 40, 120]);
+		fields.push(format!("rec: (local f(n) = if n == 0 then 0 else 1 + f(n - 1); f({depth}))"));
+		if rng.chance(2, 3) {
+			// around the depth the program needs: a few frames below .. comfortably above
+			stack = Some(depth + *rng.pick(&[0usize, 2, 3, 4, 5, 6, 8, 12, 30, 100]));
+		}
+	} else if rng.chance(1, 6) {
+		stack = Some(*rng.pick(&[1usize, 2, 50, 512]));
+	}
+	if rng.chance(1, 30) {
+		fields.push("boom: error 'boom'".to_owned());
+	}
+	if rng.chance(1, 5) {
+		fields.push("num: [0.1, 1e100, -0, 3]".to_owned());
+	}
+	if rng.chance(1, 5) {
+		fields.push("txt: 'é \"q\" \\n tab\\t'".to_owned());
+	}
+	if capi && rng.chance(2, 3) {
+		for f in [
+			"n_add: std.native('nativeAdd')(2, 3.5)",
+			"n_cat: std.native('nativeCat')('x', 'é')",
+			"n_mk: std.native('nativeMk')(4)",
+			"n_mk2: std.native('nativeMk')(null)",
+			"n_missing: std.native('nope')",
+		] {
+			if rng.chance(1, 2) {
+				fields.push(f.to_owned());
+			}
+		}
+		if rng.chance(1, 20) {
+			fields.push("n_fail: std.native('nativeFail')(1)".to_owned());
+		}
+		if rng.chance(1, 20) {
+			fields.push("n_bad: std.native('nativeAdd')('x', 1)".to_owned());
+		}
+	}
+	// top level arguments: only names the function has (extra arguments are C04's business)
+	let mut tla = vec![];
+	let mut params = vec![];
+	if rng.chance(1, 2) {
+		let p1_default = rng.chance(1, 2);
+		params.push(if p1_default { "p1='d1'".to_owned() } else { "p1".to_owned() });
+		if rng.chance(1, 2) {
+			params.push("p2={ d: 2 }".to_owned());
+		}
+		fields.push("t1: p1".to_owned());
+		if params.len() > 1 {
+			fields.push("t2: p2".to_owned());
+		}
+		for (i, p) in ["p1", "p2"].iter().enumerate() {
+			if i < params.len() && (rng.chance(2, 3) || (i == 0 && !p1_default && rng.chance(15, 16))) {
+				let fl = if capi { *rng.pick(&["str", "code"]) } else { *rng.pick(&FLAVOURS) };
+				let payload = match fl {
+					"str" => (*rng.pick(&["tv", "", "x=y"])).to_owned(),
+					"code" => pick_w(rng, &["[1, 2]", "import 'libB/shared.libsonnet'", "{ t: 1 }", "'s' + 't'"], &["error 'tla boom'", "std.extVar('nope')", "import 'shared.libsonnet'"]),
+					"str-file" => pick_w(rng, &["str.txt", "data.txt", "libA/data.txt"], &["missing.txt"]),
+					_ => pick_w(rng, &["code.jsonnet", "fn.jsonnet", "libC/../libB/shared.libsonnet"], &["missing.jsonnet", "bad.jsonnet"]),
+				};
+				tla.push(VarOpt { fl, name: (*p).to_owned(), payload, from_env: false });
+			}
+		}
+	} else if rng.chance(1, 6) {
+		// TLA given although the program is not a function: ignored
+		tla.push(VarOpt { fl: "str", name: "p1".to_owned(), payload: "unused".to_owned(), from_env: false });
+	}
+	let obj = format!("{{ {} }}", fields.join(", "));
+	let code = if params.is_empty() { obj } else { format!("function({}) {obj}", params.join(", ")) };
+	Scenario { ext, tla, jpath, env, stack, code, as_file: rng.chance(1, 2), natives: capi && rng.chance(5, 6) }
+}
+
+/// wrap the program's object according to the shape an output mode wants
+fn shape(rng: &mut Rng, code: &str, want: &str) -> String {
+	let (head, body) = match code.find(") {") {
+		Some(i) if code.starts_with("function(") => (&code[..=i], &code[i + 2..]),
+		_ => ("", code),
+	};
+	let b = match want {
+		"string" => match rng.below(4) {
+			0 => format!("std.manifestJsonMinified({body})"),
+			1 => "'plain text\\n'".to_owned(),
+			2 => "''".to_owned(),
+			_ => format!("std.toString({body})"),
+		},
+		"array" => match rng.below(3) {
+			0 => format!("[{body}, 1, 's']"),
+			1 => "[]".to_owned(),
+			_ => format!("[{body}]"),
+		},
+		"files" => match rng.below(4) {
+			0 => format!("{{ 'a.json': {body}, 'b.txt': 'text' }}"),
+			1 => "{}".to_owned(),
+			2 => format!("{{ 'z.json': {body}, 'm.json': [1], 'e.json': error 'field boom', 'a.json': 1 }}"),
+			_ => format!("{{ 'one.json': {body} }}"),
+		},
+		"strfiles" => match rng.below(3) {
+			0 => format!("{{ 'a.txt': std.toString({body}), 'b.txt': '' }}"),
+			1 => format!("{{ 'a.txt': 'x', 'b.txt': {body} }}"),
+			_ => "{ 'only.txt': 'é\\n' }".to_owned(),
+		},
+		"arrfiles" => format!("{{ 'a.yaml': [{body}, 2], 'b.yaml': [] }}"),
+		"wrong" => "42".to_owned(),
+		_ => body.to_owned(),
+	};
+	format!("{head} {b}")
+}
+
+#[derive(Trace)]
+struct RsNative(u8);
+impl NativeCallbackHandler for RsNative {
+	fn call(&self, args: &[Val]) -> Result<Val, Error> {
+		let fail = |m: &str| -> Result<Val, Error> { Err(ErrorKind::RuntimeError(m.into()).into()) };
+		match self.0 {
+			0 => match (&args[0], &args[1]) {
+				(Val::Num(a), Val::Num(b)) => Ok(Val::Num(jrsonnet_evaluator::val::NumValue::new(a.get() + b.get()).expect("finite"))),
+				_ => fail("nativeAdd: not a number"),
+			},
+			1 => match (args[0].as_str(), args[1].as_str()) {
+				(Some(a), Some(b)) => Ok(Val::string(format!("{a}{b}"))),
+				_ => fail("nativeCat: not a string"),
+			},
+			2 => fail("native failure"),
+			_ => {
+				let a = &args[0];
+				let e1 = match a {
+					Val::Num(n) => Val::Num(jrsonnet_evaluator::val::NumValue::new(n.get() * 2.0).expect("finite")),
+					_ => Val::Null,
+				};
+				let e2 = Val::Bool(!matches!(a, Val::Bool(_)));
+				let e3 = Val::Bool(matches!(a, Val::Null));
+				let arr = Val::Arr(ArrValue::lazy(vec![Thunk::evaluated(e1), Thunk::evaluated(e2), Thunk::evaluated(e3)]));
+				let mut obj = ObjValue::empty();
+				obj.extend_field("k".into()).value(arr);
+				obj.extend_field("s".into()).value(Val::string("v"));
+				Ok(Val::Obj(obj))
+			}
+		}
+	}
+}
+
+enum LibOut {
+	Err,
+	ManErr,
+	Panic(String),
+	Text(String),
+	Fields(Vec<(String, &'static str, String)>),
+	Kvs(Vec<(String, String)>),
+	Vs(Vec<String>),
+}
+
+/// the reference side: the library API used directly for the configuration
+#[allow(deprecated)]
+fn lib_run(sc: &Scenario, paths: Vec<PathBuf>, main: &str, format: &dyn ManifestFormat, mode: &str, stack: usize) -> LibOut {
+	let r = guarded(|| -> JrResult<LibOut> {
+		let ctx = ContextInitializer::new(PathResolver::new_cwd_fallback());
+		// strongest flavour last, like every jsonnet command line: file flavours override inline ones
+		for fl in FLAVOURS {
+			for e in sc.ext.iter().filter(|e| e.fl == fl) {
+				let v = match fl {
+					"str" => TlaArg::String(e.payload.as_str().into()),
+					"str-file" => TlaArg::ImportStr(e.payload.clone()),
+					"code" => TlaArg::InlineCode(e.payload.clone()),
+					_ => TlaArg::Import(e.payload.clone()),
+				};
+				ctx.settings_mut().ext_vars.insert(e.name.as_str().into(), v);
+			}
+		}
+		if sc.natives {
+			ctx.add_native("nativeAdd", NativeCallback::new(vec!["a".into(), "b".into()], RsNative(0)));
+			ctx.add_native("nativeCat", NativeCallback::new(vec!["a".into(), "b".into()], RsNative(1)));
+			ctx.add_native("nativeFail", NativeCallback::new(vec!["a".into()], RsNative(2)));
+			ctx.add_native("nativeMk", NativeCallback::new(vec!["a".into()], RsNative(3)));
+		}
+		let mut sb = State::builder();
+		sb.import_resolver(FileImportResolver::new(paths)).context_initializer(ctx);
+		let s = sb.build();
+		let _entered = s.enter();
+		let _limit = limit_stack_depth(stack);
+		let val = if sc.as_file { s.import(main)? } else { s.evaluate_snippet(main.to_owned(), sc.code.clone())? };
+		let mut tla: FxHashMap<IStr, TlaArg> = FxHashMap::default();
+		for fl in FLAVOURS {
+			for e in sc.tla.iter().filter(|e| e.fl == fl) {
+				let v = match fl {
+					"str" => TlaArg::String(e.payload.as_str().into()),
+					"str-file" => TlaArg::ImportStr(e.payload.clone()),
+					"code" => TlaArg::InlineCode(e.payload.clone()),
+					_ => TlaArg::Import(e.payload.clone()),
+				};
+				tla.insert(e.name.as_str().into(), v);
+			}
+		}
+		let val = apply_tla(&tla, val)?;
+		Ok(match mode {
+			"cli-multi" => {
+				let Val::Obj(o) = val else { return Ok(LibOut::Err) };
+				let mut fs = vec![];
+				for (k, v) in o.iter() {
+					match v {
+						Err(_) => {
+							fs.push((k.to_string(), "evalErr", String::new()));
+							break;
+						}
+						Ok(v) => match format.manifest(v) {
+							Ok(t) => fs.push((k.to_string(), "ok", t)),
+							Err(_) => {
+								fs.push((k.to_string(), "manErr", String::new()));
+								break;
+							}
+						},
+					}
+				}
+				LibOut::Fields(fs)
+			}
+			"multi" => {
+				let Val::Obj(o) = val else { return Ok(LibOut::Err) };
+				let mut kvs = vec![];
+				for (k, v) in o.iter() {
+					kvs.push((k.to_string(), format.manifest(v?)?));
+				}
+				LibOut::Kvs(kvs)
+			}
+			"stream" => {
+				let Val::Arr(a) = val else { return Ok(LibOut::Err) };
+				let mut vs = vec![];
+				for v in a.iter() {
+					vs.push(format.manifest(v?)?);
+				}
+				LibOut::Vs(vs)
+			}
+			_ => match format.manifest(val) {
+				Ok(t) => LibOut::Text(t),
+				Err(_) => LibOut::ManErr,
+			},
+		})
+	});
+	match r {
+		Ok(Ok(o)) => o,
+		Ok(Err(_)) => LibOut::Err,
+		Err(p) => LibOut::Panic(p),
+	}
+}
+
+fn bin(name: &str) -> PathBuf {
+	PathBuf::from(std::env::var("VERIF_BIN_DIR").unwrap_or_default()).join(name)
+}
+
+fn ref_paths(dir: &Path, jpath: &[String], env: &Option<Vec<String>>) -> Vec<PathBuf> {
+	// right-most -J first, then JSONNET_PATH left to right
+	let mut v: Vec<PathBuf> = jpath.iter().rev().map(|p| dir.join(p)).collect();
+	if let Some(e) = env {
+		v.extend(e.iter().map(|p| dir.join(p)));
+	}
+	v
+}
+
+fn run_cli(opts: &Opts) {
+	let mut w = CaseWriter::new(&opts.out);
+	let mut rng = Rng::new(opts.seed ^ 0x1515);
+	let exe = bin("jrsonnet");
+	let dir = opts.out.join("fs");
+	write_tree(&dir);
+	let dir = dir.canonicalize().expect("canon");
+	std::env::set_current_dir(&dir).expect("chdir");
+	let mut hist = BTreeMap::<String, usize>::new();
+	let n = if opts.thorough() { 2500 } else { 240 };
+	for i in 0..n {
+		let mut sc = gen_scenario(&mut rng, false);
+		// output mode
+		let mut fmt = gen_fmt(&mut rng);
+		if rng.chance(5, 6) {
+			// mostly accepted combinations
+			if fmt.s {
+				fmt.f = None;
+				fmt.y = false;
+			}
+		}
+		if fmt.f == Some("ini") || fmt.f == Some("xml-jsonml") {
+			if rng.chance(2, 3) {
+				fmt.f = Some(*rng.pick(&["json", "yaml", "toml", "string"]));
+			}
+		}
+		let out_kind = match rng.below(10) {
+			0..=5 => "stdout",
+			6 | 7 => "multi",
+			_ => "file",
+		};
+		let want = if rng.chance(1, 25) {
+			"wrong"
+		} else if out_kind == "multi" {
+			if fmt.y { "arrfiles" } else if fmt.s { "strfiles" } else { "files" }
+		} else if fmt.y {
+			"array"
+		} else if fmt.s {
+			"string"
+		} else {
+			"object"
+		};
+		sc.code = shape(&mut rng, &sc.code, want);
+		if fmt.f == Some("xml-jsonml") && rng.chance(1, 2) {
+			sc.code = "['a', {x: '1'}, 't', ['b']]".to_owned();
+			sc.tla.clear();
+		}
+		if fmt.f == Some("ini") && rng.chance(1, 2) {
+			sc.code = "{main: {a: '1'}, sections: {s: {k: 'v'}}}".to_owned();
+			sc.tla.clear();
+		}
+		let mut out_kind = out_kind;
+		if i < 2 {
+			// fixed witnesses: 0 = known finding (`-f ini` on a non-object panics in the library),
+			// 1 = repaired defect (`--tla-str-file n=path` read a file called `n`)
+			sc.ext.clear();
+			sc.tla.clear();
+			sc.jpath.clear();
+			sc.env = None;
+			sc.stack = None;
+			sc.as_file = false;
+			out_kind = "stdout";
+			if i == 0 {
+				fmt = Fmt { f: Some("ini"), s: false, y: false, pad: None };
+				sc.code = "1".to_owned();
+			} else {
+				fmt = Fmt::default();
+				sc.code = "function(n) n".to_owned();
+				sc.tla.push(VarOpt { fl: "str-file", name: "n".to_owned(), payload: "str.txt".to_owned(), from_env: false });
+			}
+		}
+		let main = if sc.as_file { "main.jsonnet".to_owned() } else { "<cmdline>".to_owned() };
+		if sc.as_file {
+			fs::write(dir.join("main.jsonnet"), &sc.code).expect("write main");
+		}
+		let out_dir = dir.join("out");
+		let _ = fs::remove_dir_all(&out_dir);
+		fs::create_dir_all(&out_dir).expect("mkdir out");
+		let (mode_json, mode_args): (Value, Vec<String>) = match out_kind {
+			"multi" => (json!({"k":"multi","p":"out"}), vec!["-m".into(), "out".into()]),
+			"file" => (json!({"k":"file","p":"out/result.txt"}), vec!["-o".into(), "out/result.txt".into()]),
+			_ => (json!({"k":"stdout"}), vec![]),
+		};
+		// ---- the executable ----
+		let mut args: Vec<String> = vec![];
+		args.extend(sc.ext.iter().flat_map(|v| v.args("ext")));
+		args.extend(sc.tla.iter().flat_map(|v| v.args("tla")));
+		for j in &sc.jpath {
+			args.push("-J".into());
+			args.push(j.clone());
+		}
+		if let Some(s) = sc.stack {
+			args.push("-s".into());
+			args.push(s.to_string());
+		}
+		args.extend(fmt.args());
+		args.extend(mode_args);
+		if rng.chance(1, 5) {
+			args.push("-c".into());
+		}
+		if sc.as_file {
+			args.push("main.jsonnet".into());
+		} else {
+			args.push("-e".into());
+			args.push(sc.code.clone());
+		}
+		let mut cmd = Command::new(&exe);
+		cmd.args(&args).current_dir(&dir).env_remove("JSONNET_PATH");
+		if let Some(e) = &sc.env {
+			cmd.env("JSONNET_PATH", std::env::join_paths(e.iter()).expect("join"));
+		}
+		for v in sc.ext.iter().filter(|v| v.from_env) {
+			cmd.env(&v.name, &v.payload);
+		}
+		let o = cmd.output().expect("run jrsonnet");
+		let mut files: Vec<(String, String)> = vec![];
+		if let Ok(rd) = fs::read_dir(&out_dir) {
+			for e in rd.flatten() {
+				let name = e.file_name().to_string_lossy().to_string();
+				let content = fs::read(e.path()).map(|b| String::from_utf8_lossy(&b).to_string()).unwrap_or_default();
+				files.push((format!("out/{name}"), content));
+			}
+		}
+		files.sort();
+		let code = o.status.code();
+		let impl_ans = if code == Some(2) && !fmt.accepted() {
+			json!({"reject": true})
+		} else {
+			json!({
+				"stdout": String::from_utf8_lossy(&o.stdout),
+				"stderr": !o.stderr.is_empty(),
+				"exit": code.unwrap_or(-1),
+				"files": files.iter().map(|(p, c)| json!([p, c])).collect::<Vec<_>>(),
+				"_stderr": String::from_utf8_lossy(&o.stderr).chars().take(300).collect::<String>(),
+			})
+		};
+		// ---- the library ----
+		let out = if fmt.accepted() {
+			let format = format_of(&ref_format_desc(&fmt));
+			let paths = ref_paths(&dir, &sc.jpath, &sc.env);
+			let lib = lib_run(&sc, paths, &main, &*format, if out_kind == "multi" { "cli-multi" } else { "plain" }, sc.stack.unwrap_or(512));
+			match lib {
+				LibOut::Err => json!({"k":"err"}),
+				LibOut::ManErr => json!({"k":"manErr"}),
+				LibOut::Panic(p) => json!({"k":"err","_lib_panic":p}),
+				LibOut::Text(t) => json!({"k":"text","t":t}),
+				LibOut::Fields(fs) => json!({"k":"fields","fs":fs.iter().map(|(a, b, c)| json!([a, b, c])).collect::<Vec<_>>()}),
+				_ => unreachable!(),
+			}
+		} else {
+			json!({"k":"err"})
+		};
+		*hist.entry(format!("out.{out_kind}")).or_default() += 1;
+		*hist.entry(format!("fmt.{}", if fmt.accepted() { ref_format_desc(&fmt) } else { "reject".into() })).or_default() += 1;
+		*hist.entry(format!("lib.{}", out["k"].as_str().unwrap_or("?"))).or_default() += 1;
+		*hist.entry(format!("jpath{}", sc.jpath.len())).or_default() += 1;
+		for v in sc.ext.iter() {
+			*hist.entry(format!("ext-{}", v.fl)).or_default() += 1;
+		}
+		for v in sc.tla.iter() {
+			*hist.entry(format!("tla-{}", v.fl)).or_default() += 1;
+		}
+		if sc.env.is_some() {
+			*hist.entry("JSONNET_PATH".into()).or_default() += 1;
+		}
+		w.case(
+			json!({"op":"cli.render","mode":mode_json,"fmt":fmt.json(),"out":out,
+				"size": args.len() + sc.code.len() / 40, "_args": args, "_i": i}),
+			impl_ans,
+		);
+	}
+	w.finish(
+		json!({"engine":"c15run","cases":n,"hist":hist,
+			"rule":"generated programs reading ext vars / TLAs (all flavours, from files, from environment, duplicates), importing through 0-3 -J paths and JSONNET_PATH, recursion against --max-stack, output through stdout/-o/-m with -S/-y/-f/--line-padding; real executable vs library API used directly"}),
+		&opts.out,
+	);
+}
+
+fn hex(s: &str) -> String {
+	if s.is_empty() {
+		return "-".to_owned();
+	}
+	s.bytes().map(|b| format!("{b:02x}")).collect()
+}
+fn unhex(s: &str) -> Vec<u8> {
+	if s == "-" {
+		return vec![];
+	}
+	(0..s.len() / 2).map(|i| u8::from_str_radix(&s[2 * i..2 * i + 2], 16).unwrap_or(0)).collect()
+}
+
+fn build_c_driver(out: &Path) -> Result<PathBuf, String> {
+	let src = out.join("c15_capi.c");
+	fs::write(&src, include_str!("c15_capi.c")).map_err(|e| e.to_string())?;
+	let exe = out.join("c15_capi");
+	let libdir = PathBuf::from(std::env::var("VERIF_BIN_DIR").unwrap_or_default());
+	if !libdir.join("libjsonnet.so").exists() {
+		return Err(format!("{} missing", libdir.join("libjsonnet.so").display()));
+	}
+	let repo = std::env::var("VERIF_REPO").unwrap_or_else(|_| "/repo".to_owned());
+	let o = Command::new("gcc")
+		.arg("-O0")
+		.arg("-o")
+		.arg(&exe)
+		.arg(&src)
+		.arg(format!("-I{repo}/bindings/c"))
+		.arg(format!("-L{}", libdir.display()))
+		.arg("-ljsonnet")
+		.arg(format!("-Wl,-rpath,{}", libdir.display()))
+		.output()
+		.map_err(|e| e.to_string())?;
+	if !o.status.success() {
+		return Err(String::from_utf8_lossy(&o.stderr).to_string());
+	}
+	Ok(exe)
+}
+
+fn run_capi(opts: &Opts) {
+	let mut w = CaseWriter::new(&opts.out);
+	let mut rng = Rng::new(opts.seed ^ 0x15c);
+	let driver = match build_c_driver(&opts.out) {
+		Ok(d) => d,
+		Err(e) => {
+			eprintln!("cannot build the C driver: {e}");
+			std::process::exit(3);
+		}
+	};
+	let dir = opts.out.join("fs");
+	write_tree(&dir);
+	let dir = dir.canonicalize().expect("canon");
+	std::env::set_current_dir(&dir).expect("chdir");
+	let mut hist = BTreeMap::<String, usize>::new();
+	let n = if opts.thorough() { 2000 } else { 200 };
+	for i in 0..n {
+		let mut sc = gen_scenario(&mut rng, true);
+		let mode = *rng.pick(&["plain", "plain", "multi", "stream"]);
+		let string_out = rng.chance(1, 4);
+		let want = if rng.chance(1, 25) {
+			"wrong"
+		} else {
+			match (mode, string_out) {
+				("multi", false) => "files",
+				("multi", true) => "strfiles",
+				("stream", _) => "array",
+				(_, true) => "string",
+				_ => "object",
+			}
+		};
+		sc.code = shape(&mut rng, &sc.code, want);
+		let main = if sc.as_file { dir.join("main.jsonnet").to_string_lossy().to_string() } else { "snip".to_owned() };
+		if sc.as_file {
+			fs::write(dir.join("main.jsonnet"), &sc.code).expect("write main");
+		}
+		// call order of the settings is the order of the lists
+		let mut script = String::new();
+		if sc.natives {
+			script.push_str("native\n");
+		}
+		for e in &sc.ext {
+			script.push_str(&format!("{} {} {}\n", if e.fl == "str" { "extvar" } else { "extcode" }, hex(&e.name), hex(&e.payload)));
+		}
+		for e in &sc.tla {
+			script.push_str(&format!("{} {} {}\n", if e.fl == "str" { "tlavar" } else { "tlacode" }, hex(&e.name), hex(&e.payload)));
+		}
+		for j in &sc.jpath {
+			script.push_str(&format!("jpath {}\n", hex(&dir.join(j).to_string_lossy())));
+		}
+		if let Some(s) = sc.stack {
+			script.push_str(&format!("maxstack {s}\n"));
+		}
+		if string_out || rng.chance(1, 10) {
+			script.push_str(&format!("stringout {}\n", u8::from(string_out)));
+		}
+		if sc.as_file {
+			script.push_str(&format!("file {} {mode}\n", hex(&main)));
+		} else {
+			script.push_str(&format!("snippet {} {} {mode}\n", hex(&main), hex(&sc.code)));
+		}
+		let sfile = opts.out.join("script.txt");
+		fs::write(&sfile, &script).expect("script");
+		let o = Command::new(&driver).arg(&sfile).current_dir(&dir).env("RUST_BACKTRACE", "0").output().expect("run driver");
+		let stdout = String::from_utf8_lossy(&o.stdout).to_string();
+		let impl_ans = match stdout.lines().find(|l| l.starts_with("R ")) {
+			Some(l) if o.status.success() => {
+				let mut it = l.split(' ');
+				it.next();
+				let err: i64 = it.next().and_then(|e| e.parse().ok()).unwrap_or(-1);
+				let raw = unhex(it.next().unwrap_or("-"));
+				if err == 0 {
+					json!({"err": 0, "raw": raw})
+				} else {
+					json!({"err": err, "_msg": String::from_utf8_lossy(&raw).chars().take(200).collect::<String>()})
+				}
+			}
+			_ => json!({"panic": format!("driver status {:?}: {}", o.status.code(), String::from_utf8_lossy(&o.stderr).chars().take(300).collect::<String>())}),
+		};
+		// ---- the library: later calls for a name replace earlier ones; most recent jpath first ----
+		let mut lsc = sc.clone();
+		// the C calls are applied in list order whatever the flavour: emulate with one insertion order
+		let paths: Vec<PathBuf> = sc.jpath.iter().rev().map(|p| dir.join(p)).collect();
+		lsc.ext = dedup_last(&sc.ext);
+		lsc.tla = dedup_last(&sc.tla);
+		let format: Box<dyn ManifestFormat> = if string_out { Box::new(ToStringFormat) } else { Box::new(JsonFormat::default()) };
+		let lib = lib_run(&lsc, paths, &main, &*format, mode, sc.stack.unwrap_or(200));
+		let b = |s: &String| -> Vec<u8> { s.as_bytes().to_vec() };
+		let out = match lib {
+			LibOut::Err | LibOut::ManErr => json!({"err": true}),
+			LibOut::Panic(p) => json!({"err": true, "_lib_panic": p}),
+			LibOut::Text(t) => json!({"text": b(&t)}),
+			LibOut::Kvs(kvs) => json!({"kvs": kvs.iter().map(|(k, v)| json!([b(k), b(v)])).collect::<Vec<_>>()}),
+			LibOut::Vs(vs) => json!({"vs": vs.iter().map(b).collect::<Vec<_>>()}),
+			LibOut::Fields(_) => unreachable!(),
+		};
+		*hist.entry(format!("mode.{mode}")).or_default() += 1;
+		*hist.entry(format!("lib.{}", if out.get("err").is_some() { "err" } else { "ok" })).or_default() += 1;
+		*hist.entry(format!("jpath{}", sc.jpath.len())).or_default() += 1;
+		if sc.natives {
+			*hist.entry("natives".into()).or_default() += 1;
+		}
+		if string_out {
+			*hist.entry("string_output".into()).or_default() += 1;
+		}
+		for v in sc.ext.iter() {
+			*hist.entry(format!("ext-{}", v.fl)).or_default() += 1;
+		}
+		for v in sc.tla.iter() {
+			*hist.entry(format!("tla-{}", v.fl)).or_default() += 1;
+		}
+		w.case(
+			json!({"op":"capi.frame","mode":mode,"out":out,"size": script.len() / 20, "_script": script, "_code": sc.code, "_i": i}),
+			impl_ans,
+		);
+	}
+	w.finish(
+		json!({"engine":"c15capi","cases":n,"hist":hist,
+			"rule":"generated programs with ext_var/ext_code/tla_var/tla_code, 0-3 jpath_add, max_stack, string_output, native callbacks (numbers, strings, failure, built object/array), evaluate_file/snippet x plain/multi/stream through the real libjsonnet.so and a C driver"}),
+		&opts.out,
+	);
+}
+
+/// for the C API the last call for a name wins whatever the kind: keep the last option per name and
+/// present it so that the flavour-ordered insertion of `lib_run` reproduces that
+fn dedup_last(v: &[VarOpt]) -> Vec<VarOpt> {
+	let mut out: Vec<VarOpt> = vec![];
+	for o in v.iter().rev() {
+		if !out.iter().any(|x| x.name == o.name) {
+			out.push(o.clone());
+		}
+	}
+	out.reverse();
+	out
+}
+
+// ------------------------------------------------------------------------------------------------
+// dependency lister
+
+thread_local! {
+	static LOADED: RefCell<Vec<PathBuf>> = const { RefCell::new(Vec::new()) };
+}
+#[derive(Acyclic)]
+struct RecordingTl {
+	inner: FileImportResolver,
+}
+impl ImportResolver for RecordingTl {
+	fn resolve_from(&self, from: &SourcePath, path: &dyn AsPathLike) -> JrResult<SourcePath> {
+		self.inner.resolve_from(from, path)
+	}
+	fn resolve_from_default(&self, path: &dyn AsPathLike) -> JrResult<SourcePath> {
+		self.inner.resolve_from_default(path)
+	}
+	fn load_file_contents(&self, resolved: &SourcePath) -> JrResult<Vec<u8>> {
+		LOADED.with_borrow_mut(|l| l.push(PathBuf::from(format!("{resolved}"))));
+		self.inner.load_file_contents(resolved)
+	}
+}
+
+const POSITIONS: [&str; 46] = [
+	"if false then null else %",
+	"if true then null else %",
+	"if std.isArray(%) then 1 else 2",
+	"{assert std.isArray(%) || true, b: 1}.b",
+	"{[std.toString(std.length(%))]: 1}",
+	"{f(a=%): a}.f()",
+	"{local l = %, [k]: l for k in ['a']}.a",
+	"{[k]: 1 for k in [std.toString(std.length(%))]}",
+	"({b: %} + {a: 1}).b",
+	"assert std.isArray(%) || true; null",
+	"assert true; %",
+	"local x = 1; %",
+	"local f(a, b=%) = b; f(1)",
+	"local f(a) = %; f(1)",
+	"if false then error std.toString(%) else null",
+	"(if true then function() 1 else %)()",
+	"([%, 1])[0:1][0]",
+	"[1, 2, 3][0:(local z = %; 1):(local w = %; 1)]",
+	"(%)",
+	"[x for x in [1] if std.isArray(%) || true]",
+	"{a: 1} {b: %}",
+	"!(std.isArray(%) && false)",
+	"%",
+	"local x = %; x",
+	"[%][0]",
+	"{a: %}.a",
+	"(function(p = %) p)()",
+	"if true then % else null",
+	"if false then % else null",
+	"[% for i in [1]][0]",
+	"[i for i in [%]][0]",
+	"{[k]: % for k in ['a']}.a",
+	"assert true : %; null",
+	"{assert true : %, local y = %, b: y}.b",
+	"std.length([%])",
+	"({a: 1} + {b: %}).b",
+	"({a: 1} {b: %}).b",
+	"-(if false then % else 1)",
+	"[1, 2][if false then % else 0]",
+	"function(a) %",
+	"std.type(%)",
+	"std.type(x=%)",
+	"[1, 2, 3][(local z = %; 0):1:1]",
+	"{local f(a, b = %) = b, c: f(1)}.c",
+	"{a: 1, b+: {c: %}}.b.c",
+	"[if i == 1 then % for i in [1] if std.isArray(%) || true][0]",
+];
+
+struct DFile {
+	dir: &'static str,
+	name: String,
+	/// (kind 0 code / 1 str / 2 bin, target index or None)
+	edges: Vec<(u8, Option<usize>)>,
+	broken: bool,
+}
+
+fn rel_import(from_dir: &str, to_dir: &str, name: &str) -> String {
+	// directories: "m", "m/sub", "L0", "L1" (below the case directory)
+	if to_dir.starts_with('L') {
+		return name.to_owned(); // through -J
+	}
+	match (from_dir, to_dir) {
+		(a, b) if a == b => name.to_owned(),
+		("m", "m/sub") => format!("sub/{name}"),
+		("m/sub", "m") => format!("../{name}"),
+		("L0" | "L1", "m") => format!("../m/{name}"),
+		("L0" | "L1", "m/sub") => format!("../m/sub/{name}"),
+		_ => name.to_owned(),
+	}
+}
+
+fn run_deps(opts: &Opts) {
+	let mut w = CaseWriter::new(&opts.out);
+	let mut rng = Rng::new(opts.seed ^ 0x15d);
+	let exe = bin("jrsonnet-deps");
+	let base = opts.out.join("fs");
+	let mut hist = BTreeMap::<String, usize>::new();
+	let n = if opts.thorough() { 2000 } else { 200 };
+	let mut witness_done = false;
+	for i in 0..n {
+		let cdir = base.clone();
+		let _ = fs::remove_dir_all(&cdir);
+		for d in ["m/sub", "L0", "L1"] {
+			fs::create_dir_all(cdir.join(d)).expect("mkdir");
+		}
+		let nf = 1 + rng.below(7);
+		let mut files: Vec<DFile> = (0..nf)
+			.map(|k| DFile {
+				dir: if k == 0 { "m" } else { *rng.pick(&["m", "m", "m/sub", "L1", "L1"]) },
+				name: format!("f{k}.libsonnet"),
+				edges: vec![],
+				broken: k != 0 && rng.chance(1, 12),
+			})
+			.collect();
+		let root_broken = rng.chance(1, 40);
+		files[0].broken = root_broken;
+		for k in 0..nf {
+			let ne = if rng.chance(1, 5) { 0 } else { 1 + rng.below(4) };
+			for _ in 0..ne {
+				let kind = *rng.pick(&[0u8, 0, 0, 1, 1, 2]);
+				let tgt = if rng.chance(1, 16) { None } else { Some(rng.below(nf)) };
+				files[k].edges.push((kind, tgt));
+			}
+		}
+		if !witness_done {
+			// the repaired defect: listed by importstr first, imported as code afterwards
+			witness_done = true;
+			files.truncate(1);
+			files[0].edges = vec![(1, Some(1)), (0, Some(1))];
+			files[0].broken = false;
+			files.push(DFile { dir: "m", name: "f1.libsonnet".into(), edges: vec![(0, Some(2))], broken: false });
+			files.push(DFile { dir: "m/sub", name: "f2.libsonnet".into(), edges: vec![], broken: false });
+		}
+		let nf = files.len();
+		// write the files
+		let mut path_id: HashMap<PathBuf, usize> = HashMap::new();
+		for k in 0..nf {
+			let f = &files[k];
+			let mut items = vec![];
+			for (kind, tgt) in &f.edges {
+				let kw = ["import", "importstr", "importbin"][*kind as usize];
+				let target = match tgt {
+					Some(t) => rel_import(f.dir, files[*t].dir, &files[*t].name),
+					None => format!("missing_{}.libsonnet", rng.below(3)),
+				};
+				let imp = format!("{kw} '{target}'");
+				let pos = if rng.chance(1, 3) { "%" } else { *rng.pick(&POSITIONS) };
+				items.push(pos.replace('%', &imp));
+			}
+			let mut text = format!("[{}]", items.join(",\n "));
+			if f.broken {
+				text.push_str(" {{ (");
+			}
+			let p = cdir.join(f.dir).join(&f.name);
+			fs::write(&p, text).expect("write file");
+			path_id.insert(p.canonicalize().expect("canon"), k);
+			if f.dir == "L1" && rng.chance(1, 2) {
+				// decoy with the same name in the lower-priority library directory
+				fs::write(cdir.join("L0").join(&f.name), "[import 'decoy_missing.libsonnet']").expect("decoy");
+				path_id.insert(cdir.join("L0").join(&f.name).canonicalize().expect("canon"), 900 + k);
+			}
+		}
+		// (a position that contains the placeholder twice repeats the same edge: same graph)
+		let graph: Vec<Value> = files
+			.iter()
+			.map(|f| {
+				if f.broken {
+					Value::Null
+				} else {
+					Value::Array(f.edges.iter().map(|(k, t)| json!([*k == 0, t])).collect())
+				}
+			})
+			.collect();
+		let mdir = cdir.join("m").canonicalize().expect("canon");
+		// ---- the executable ----
+		let o = Command::new(&exe)
+			.args(["f0.libsonnet", "-J", "../L0", "-J", "../L1"])
+			.current_dir(&mdir)
+			.env_remove("JSONNET_PATH")
+			.output()
+			.expect("run jrsonnet-deps");
+		let stdout = String::from_utf8_lossy(&o.stdout).to_string();
+		let lines: Vec<&str> = stdout.lines().collect();
+		let impl_deps: Option<Vec<usize>> = if o.status.code() == Some(0) {
+			let mut ids: Vec<usize> = lines.iter().map(|l| path_id.get(Path::new(l)).copied().unwrap_or(999)).collect();
+			let mut sorted = lines.clone();
+			sorted.sort_unstable();
+			sorted.dedup();
+			if sorted != lines {
+				ids.push(998); // not sorted / duplicated output
+			}
+			ids.sort_unstable();
+			Some(ids)
+		} else {
+			None
+		};
+		// ---- evaluation through the library, recording every load ----
+		std::env::set_current_dir(&mdir).expect("chdir");
+		LOADED.with_borrow_mut(Vec::clear);
+		let _ = guarded(|| {
+			let mut sb = State::builder();
+			sb.import_resolver(RecordingTl { inner: FileImportResolver::new(vec![mdir.join("../L1"), mdir.join("../L0")]) })
+				.context_initializer(ContextInitializer::new(PathResolver::new_cwd_fallback()));
+			let s = sb.build();
+			let _e = s.enter();
+			let _l = limit_stack_depth(60);
+			let v = s.import("f0.libsonnet")?;
+			v.manifest(JsonFormat::minify())
+		});
+		let mut loaded: Vec<usize> = LOADED.with_borrow(|l| {
+			l.iter().map(|p| p.canonicalize().ok().and_then(|p| path_id.get(&p).copied()).unwrap_or(997)).collect()
+		});
+		loaded.sort_unstable();
+		loaded.dedup();
+		let impl_ans = match &impl_deps {
+			Some(d) => {
+				let ok = loaded.iter().all(|l| *l == 0 || d.contains(l));
+				json!({"res":"ok","deps":d,"loaded_ok":ok})
+			}
+			None => json!({"res":"err","_stderr":String::from_utf8_lossy(&o.stderr).chars().take(200).collect::<String>(),
+				"_stderr_nonempty": !o.stderr.is_empty(), "_code": o.status.code()}),
+		};
+		if impl_deps.is_none() && (o.status.code() != Some(1) || o.stderr.is_empty()) {
+			// an error must be exit 1 with a message
+			w.case(
+				json!({"op":"deps.run","g":graph,"root":0,"size":nf,"_note":"abnormal exit"}),
+				json!({"res":"crash","_code":o.status.code()}),
+			);
+			continue;
+		}
+		*hist.entry(format!("files{nf}")).or_default() += 1;
+		*hist.entry(format!("res.{}", impl_ans["res"].as_str().unwrap_or("?"))).or_default() += 1;
+		*hist.entry(format!("loaded{}", loaded.len().min(6))).or_default() += 1;
+		w.case(
+			json!({"op":"deps.run","g":graph,"root":0,"loaded":loaded,"size":nf + files.iter().map(|f| f.edges.len()).sum::<usize>(), "_i": i}),
+			impl_ans,
+		);
+	}
+	w.finish(
+		json!({"engine":"c15deps","cases":n,"hist":hist,
+			"rule":"random import graphs of 1-7 files over the main directory, a sub directory and two -J directories (with decoys in the lower-priority one), import/importstr/importbin edges placed in 24 syntactic positions, missing targets, unparsable files, cycles; jrsonnet-deps output vs DFS model and closure spec; every file an in-process evaluation loads must be listed"}),
+		&opts.out,
+	);
+}
 
 pub fn run(opts: &Opts) {
-	let w = CaseWriter::new(&opts.out);
-	w.finish(serde_json::json!({"engine":"c15","cases":0,"rule":"stub"}), &opts.out);
+	match opts.engine.as_str() {
+		"c15run" => run_cli(opts),
+		"c15capi" => run_capi(opts),
+		"c15deps" => run_deps(opts),
+		_ => run_plumb(opts),
+	}
 }
